@@ -568,6 +568,11 @@ def run(ctx):
     from .shared import no_swallowed_source_errors
 
     no_swallowed_source_errors(ctx, 'C14.R2')
+    from .c01 import r1_unique as _uq
+    from ..report import Relabel as _RLu
+
+    # the ranges of a file tile it once: no file is streamed twice into the same record
+    _uq(_RLu(ctx, 'C14.R2'))
     from .c03 import r4_local_atomic as _r4la
     from ..report import Relabel as _RLa
 
